@@ -189,7 +189,7 @@ def random_trait(rng, name="Tr", dyn_safe=False, allow_async=True, with_async_tr
     if allow_generic_trait and rng.random() < 0.2:
         t.const_pos = rng.choice(["before", "after"])
     if with_async_trait:
-        t.async_trait = rng.choice(["#[::async_trait::async_trait]", "#[async_trait::async_trait]"])
+        t.async_trait = rng.choice(["#[::async_trait::async_trait]", "#[async_trait::async_trait]", "#[::async_trait::async_trait(?Send)]"])
     n = nmethods or rng.randint(1, 4)
     same = rng.random() < 0.4 and n >= 2
     first = None
